@@ -209,6 +209,11 @@ where
         TK: Debug + Copy + PartialEq + 'i,
         C: Default,
     {
+        if layout_parser.is_some() {
+            // If the Layout rule is used the lexer doesn't skip whitespaces and
+            // thus never resets the layout. No layout is found ahead yet.
+            context.set_layout_ahead(None);
+        }
         // Get next tokens (lexer should skip ws if configured to do so).
         // If error run layout_parser. If there is layout try next tokens again.
         // If no next token can be returned report error returned from the lexer.
